@@ -439,7 +439,7 @@ class Model:
                 out.append("null" if self.is_null(m, value) else "hv")
             if vis_extras and m.kind == "enum":
                 out.append("V %s" % self.enum_value_name(m, value))
-            if vis_extras and m.kind == "set":
+            if (vis_extras or self.tag_extras) and m.kind == "set":
                 out.append("S %s" % self.set_choices_text(m, value))
         elif m.kind == "array":
             out.append("A %s %s" % (m.name, value.hex() or "-"))
@@ -475,10 +475,12 @@ class Model:
             out.append("D %s %d %s" % (d.name, len(p), p.hex() or "-"))
 
     null_flags = False
+    tag_extras = False
 
-    def dump_message(self, L, vals, with_consts=True, comp_consts=True, vis_extras=False, null_flags=False):
+    def dump_message(self, L, vals, with_consts=True, comp_consts=True, vis_extras=False, null_flags=False, tag_extras=False):
         out = []
         self.null_flags = null_flags
+        self.tag_extras = tag_extras
         self.dump_level(L, vals, out, vals.get("extra", 0), with_consts, comp_consts, vis_extras)
         return " ".join(out)
 
